@@ -42,6 +42,9 @@ CLAIMED = {
  "C20": ("exploration", "end-to-end differential monitor (client bytes vs. bytes stored in the Redis stand-in)",
    "Whole path broker -> coordinator encoding -> two real proxies -> FakeRedis; every writer/reader pair, value class, strategy and redirect mode; stored bytes are zstd-decoded and compared, replies compared byte-for-byte, restricted commands must be refused and not executed.",
    "section 2, C20"),
+ "C13": ("fault_enumeration", "crash-point injection on the broker's persisted state + convergence monitor on the whole simulated system",
+   "System histories with the production JsonFileStorage persisting after every operation; the broker is replaced by a new one loaded from an earlier file (crash point), epoch recovery runs with the proxies' maximum epoch and the real coordinator components are driven against it; served epochs, bounded convergence, partition and routing are checked.",
+   "section 2, C13"),
  "C14": ("exploration", "whole-system monitor: parsed topology replies vs broker view, task state and routing probes",
    "Frozen-phase migration scenarios and hand-built layouts; CLUSTER NODES/SLOTS of every member proxy parsed per slot in each state and compared with the broker view, the proxy's own migration task state and routing probes.",
    "section 2, C14"),
